@@ -68,3 +68,10 @@ func unpublished(event any, reflected uint64) (change *CollectionChange, skip bo
 	}
 	return event.(*CollectionChange), false
 }
+
+// publishedValue is what a Value puts on its bus: a change together with its ticket. A subscriber skips the events of
+// writes that its seed already reflects, so that it is not told twice about the write it arrived in the middle of.
+type publishedValue struct {
+	change *ValueChange
+	ticket uint64
+}
